@@ -98,6 +98,16 @@ impl BeneficiaryReward {
     }
 }
 
+/// Verification accessor: `BeneficiaryReward::from_gas` as the raw amount (`None` = fee charge
+/// disabled).
+#[cfg(grevm_verif)]
+pub(crate) fn verif_from_gas<CTX>(context: &CTX, gas: &Gas) -> Option<U256>
+where
+    CTX: ContextTr,
+{
+    BeneficiaryReward::from_gas(context, gas).map(|reward| reward.0)
+}
+
 /// A protocol reward proven to be non-zero and therefore safe to defer.
 #[derive(Clone, Copy, Debug, PartialEq, Eq)]
 pub(crate) struct DeferredBeneficiaryReward(U256);
@@ -119,6 +129,18 @@ impl DeferredBeneficiaryReward {
     pub(crate) fn for_test(amount: U256) -> Self {
         assert!(!amount.is_zero(), "a deferred reward must be non-zero");
         Self(amount)
+    }
+
+    /// Verification constructor: an arbitrary amount chosen by the differential driver.
+    #[cfg(grevm_verif)]
+    pub(crate) fn verif_new(amount: U256) -> Self {
+        Self(amount)
+    }
+
+    /// Verification accessor: the raw deferred amount.
+    #[cfg(grevm_verif)]
+    pub(crate) fn verif_amount(self) -> U256 {
+        self.0
     }
 }
 
